@@ -35,5 +35,13 @@ def timeout : P String := do
   if t == 0 then failure
   pure (fmtOutcome (runTimeout clk fastB slowB (fun i => i) (fun i => nc.getD i 0) t Pn (fun i => ov.getD i false)))
 
+/-- `limiter <limit> <gcount> <n> <calls: 0 misfit | 1 gradient>…` → per call: counter afterwards and whether it raised -/
+def limiter : P String := do
+  let limit ← pNat; let g ← pNat; let n ← pNat
+  let cs ← pRepeat n pNat
+  pEnd
+  let calls := cs.map (fun c => if c = 0 then LimCall.misfit else LimCall.gradient)
+  pure (String.intercalate " " ((limRun limit g 0 calls).map (fun r => toString r.1 ++ ":" ++ (if r.2 then "1" else "0"))))
+
 end C08
 end HmcVerif
